@@ -46,11 +46,12 @@ DOC_DOMAIN = {   # documented minima (generate docstring)
 }
 
 
-def method_run(ctx, name, no_inline=()):
+def method_run(ctx, name, no_inline=(), trace_reads=()):
     fi = ctx.repo.func(GEN_MOD, f"ScenarioGenerator.{name}")
     ip = Interp(ctx.repo, ctx.types, param_types={fi.rparams[0]: "ScenarioGenerator"}
                 if fi.flavour != "staticmethod" else {},
                 no_inline=tuple(f"{GEN_MOD}:ScenarioGenerator.{n}" for n in no_inline))
+    ip.trace_reads = frozenset(trace_reads)
     s = ip.run(fi)
     cn = Canon(ip, ctx.layout, names={("param", fi.rparams[0]): "G"})
     cn.written = None
@@ -449,8 +450,31 @@ def classify_while(m, w, cls=None):
             for call, name in self_calls(caller):
                 if name == m.name:
                     am = arg_map(call, m)
-                    sites.append(pool in am and bound in am and capacity_guard_before(
-                        canonical_tests(caller.node), call.lineno, am[pool], am[bound]))
+                    ap = am.get(pool)
+                    # a copy handed over (set(X), sorted(X), X.copy()) has X's size
+                    for _ in range(3):
+                        try:
+                            e_ = ast.parse(ap, mode="eval").body if ap else None
+                        except SyntaxError:
+                            e_ = None
+                        if isinstance(e_, ast.Call) and isinstance(e_.func, ast.Name) \
+                                and e_.func.id in ("set", "list", "sorted", "tuple") \
+                                and len(e_.args) == 1 and not e_.keywords:
+                            ap = ast.unparse(e_.args[0])
+                        elif isinstance(e_, ast.Call) and isinstance(e_.func, ast.Attribute) \
+                                and e_.func.attr == "copy" and not e_.args:
+                            ap = ast.unparse(e_.func.value)
+                        else:
+                            break
+                    aps = {ap}
+                    for n_ in ast.walk(caller.node):
+                        # ... or a local name for X[...] assigned in the caller
+                        if isinstance(n_, ast.Assign) and len(n_.targets) == 1 \
+                                and isinstance(n_.targets[0], ast.Name) \
+                                and n_.targets[0].id == ap:
+                            aps.add(ast.unparse(n_.value))
+                    sites.append(pool in am and bound in am and any(capacity_guard_before(
+                        canonical_tests(caller.node), call.lineno, a_, am[bound]) for a_ in aps))
         guard = bool(sites) and all(sites)
     if removed and guard:
         return "retry-until-fresh, capacity guard", ""
@@ -1068,8 +1092,13 @@ def _drop_atoms(F, keep):
 
 # ------------------------------------------------------------------------------ (h)
 def check_sensitive(ctx, chk):
-    fi, ip, s, cn = method_run(ctx, "_generate_sensitive_hosts")
-    rs, ru, rg = fi.rparams[1], fi.rparams[2], fi.rparams[3]
+    # read from generate() with the private helper inlined: what ends up in self.sensitive_hosts
+    # in terms of generate's own (public) parameters - the helper's name, signature, and whether
+    # it stores or returns the dict are not part of the rule
+    fi, ip, s, cn = method_run(ctx, "generate", no_inline=tuple(
+        n for n in ctx.repo.cls(GEN_MOD, "ScenarioGenerator").methods
+        if n not in ("generate", "_generate_sensitive_hosts")))
+    rs, ru = "r_sensitive", "r_user"
     # the entries of the dict that ends up in self.sensitive_hosts, however they are written:
     # literal items, item stores, a key chosen by a conditional (one entry per alternative)
     from sa.canon import f_not as _n
@@ -1094,7 +1123,12 @@ def check_sensitive(ctx, chk):
             rel = tuple(c for c in (pc_[len(pc0):] if tuple(pc_[:len(pc0)]) == pc0 else pc_)
                         if c[0] != "fact")
             split(k_, v_, cn.conj(rel))
-    stores = [ev for ev in s.events if ev.kind == "store" and ev.data["target"] == "sub"]
+    if dv is None or dv[0] != "dictobj":
+        chk.undecided("C15.sensitive", "generate: the dict stored in self.sensitive_hosts is built "
+                      "where the analysis can enumerate its entries",
+                      "no store of a dict display / item-assigned dict into self.sensitive_hosts "
+                      "found in generate() and its sensitive-host helper", fi.module.path)
+        return
     got = [(k_, v_, f_show(F_)) for k_, v_, F_ in entries]
     want1 = ("(2, 0)", rs, "TRUE")
     ok1 = want1 in got
@@ -1145,28 +1179,6 @@ def check_construct(ctx, chk):
         chk.ob("C15.construct", "the scenario dict pairs every section with the attribute generated "
                "for it (16 sections)", not bad and set(items) <= set(want),
                f"wrong or missing: {bad}; extra: {sorted(set(items) - set(want))}", fi.module.path)
-    # generate -> _generate_sensitive_hosts(r_sensitive, r_user, random_goal)
-    fi, ip, s, cn = method_run(ctx, "generate", no_inline=tuple(
-        n for n in ctx.repo.cls(GEN_MOD, "ScenarioGenerator").methods if n != "generate"))
-    calls = [ev for ev in s.events if ev.kind == "call"
-             and ev.data["fname"].endswith("._generate_sensitive_hosts")]
-    if len(calls) != 1:
-        chk.undecided("C15.construct", "generate passes the requested sensitive values to "
-                      "_generate_sensitive_hosts", f"{len(calls)} call(s)", fi.module.path)
-    else:
-        callee = ctx.repo.func(GEN_MOD, "ScenarioGenerator._generate_sensitive_hosts")
-        args = [cn.show(a) for a in calls[0].data["args"]][1:]
-        kws = {k: cn.show(v) for k, v in calls[0].data.get("kwargs", ())}
-        bound = dict(zip(callee.rparams[1:], args))
-        bound.update(kws)
-        # roles are positional in the helper (C15.sensitive: its 1st parameter is the value of the
-        # sensitive-subnet host, its 2nd the user host's value, its 3rd the random-goal switch);
-        # generate's own parameter names are the public ones
-        roles = ["r_sensitive", "r_user", "random_goal"]
-        okb = len(callee.params) >= 4 and all(
-            bound.get(p_) == r_ for p_, r_ in zip(callee.rparams[1:4], roles))
-        chk.ob("C15.construct", "generate passes r_sensitive, r_user, random_goal to the helper's "
-               "parameters in that role order", okb, str(bound), fi.module.path)
 
 
 # ------------------------------------------------------------------------------ core topology
